@@ -110,7 +110,7 @@ func (c *Ctx) Run(k *Kind, in Val, nontrivial bool, strata ...string) Val {
 	if k.Oracle != nil {
 		if msg := k.Oracle(in, out); msg != "" {
 			c.oracleFail++
-			fmt.Fprintf(c.oracle, "%d\t%s\t%s\t%s\t%s\n", id, k.Name, ins, outs, msg)
+			fmt.Fprintf(c.oracle, "%d\t%s\t%s\t%s\t%s\n", id, k.Name, ins, outs, cleanMsg(msg))
 		}
 	}
 	c.perKind[k.Name]++
@@ -129,13 +129,27 @@ func (c *Ctx) Run(k *Kind, in Val, nontrivial bool, strata ...string) Val {
 // Fail records a direct-oracle failure that is not tied to a single Run.
 func (c *Ctx) Fail(k *Kind, in Val, msg string) {
 	c.oracleFail++
-	fmt.Fprintf(c.oracle, "%d\t%s\t%s\t%s\t%s\n", -1, k.Name, in.String(), "-", msg)
+	fmt.Fprintf(c.oracle, "%d\t%s\t%s\t%s\t%s\n", -1, k.Name, in.String(), "-", cleanMsg(msg))
 }
 
 func (c *Ctx) Note(format string, a ...any) { c.notes = append(c.notes, fmt.Sprintf(format, a...)) }
 
 // Exhaustive records that a finite space was enumerated completely.
 func (c *Ctx) Exhaustive(what string) { c.exhaustive = append(c.exhaustive, what) }
+
+// cleanMsg keeps an oracle message on one line of printable ASCII.
+func cleanMsg(s string) string {
+	b := []byte(s)
+	for i, c := range b {
+		if c < 32 || c > 126 {
+			b[i] = '?'
+		}
+	}
+	if len(b) > 600 {
+		b = append(b[:600], "..."...)
+	}
+	return string(b)
+}
 
 func clip(s string) string {
 	if len(s) > 300 {
